@@ -12,6 +12,7 @@ Binding B: seeded random atmospheres (T-profiles, compositions, opacity magnitud
       TLC (spec/Trace_Emission.tla) + canary.
 """
 import math
+import os
 import random
 from fractions import Fraction
 
@@ -31,6 +32,20 @@ EXP_M10 = math.exp(-10.0)
 def bcols():
     """B[t][w] of the specification filled by the harness's Planck evaluation (per unit pi)."""
     return [dict((t, fx.planck_b(WN[w], TK[t])) for t in TK) for w in range(len(WN))]
+
+
+
+def code_raised(ctx, ex, cls, vec):
+    """An exception raised by the code under test on a valid configuration is a violation (clause
+    evaluates_without_error); an exception raised inside the harness is re-raised (machinery)."""
+    import traceback
+    if isinstance(ex, Machinery):
+        raise ex
+    tb = traceback.extract_tb(ex.__traceback__)
+    if '/harness/' in tb[-1].filename:
+        raise ex
+    ctx.verdict('evaluates_without_error', False, cls=cls,
+                detail='%s: %s at %s:%s' % (type(ex).__name__, ex, os.path.basename(tb[-1].filename), tb[-1].name), vector=vec)
 
 
 def cls_of(v):
@@ -56,6 +71,7 @@ def check_vector_group(ctx, tp, vecs, cache):
     bstar = [fx.planck_b(w, STAR_T) for w in WN]
     done_I = set()
     for v in vecs:
+      try:
         e = v['e']
         cls = cls_of(v)
         em.set_layer_tau(e)
@@ -107,6 +123,8 @@ def check_vector_group(ctx, tp, vecs, cache):
                 # law: direct / (2 pi F Rp^2 / d^2) is one constant (not pinned)
                 denom = 2.0 * math.pi * fl * (di.rp_m / di.d_m) ** 2
                 cache['direct_ratios'].append((float(dflux[wi]) / denom, cls, dict(v, what='direct', w=wi)))
+      except Exception as ex:
+        code_raised(ctx, ex, 'vector:' + cls_of(v), dict(v, what='raise'))
     ctx.add_sample(dict(vector=dict(e=v0['e'], tp=tp, quad=v0['quad'], kind=v0['kind'],
                                     intensity_terms=v0['inten'][0][0])))
 
@@ -215,53 +233,56 @@ def run_traces(ctx, n_models):
         m = a.model
         ng = len(m._mu_quads)
         vec = dict(trace=True, model_index=i, seed=ctx.seed)
-        # Gauss-Legendre facts of the quadrature actually used by this model
-        mu = [float(x) for x in m._mu_quads]
-        wq = [float(x) for x in m._wi_quads]
-        add(dict(ev='quad', mu=[int(round(x * 10000)) for x in mu], w=[int(round(x * 10000)) for x in wq], S=10000),
-            'quad:ngauss%d' % ng, 'mu=%r w=%r' % (mu, wq), vec)
-        # sharp, on the floats themselves: exactness for polynomials of degree <= 2n-1 on [0,1]
-        okq = all(0.0 < x < 1.0 for x in mu)
-        for k in range(2 * ng):
-            s = sum(Fraction(w_) * Fraction(x) ** k for x, w_ in zip(mu, wq))
-            okq = okq and abs(float(s) - 1.0 / (k + 1)) <= 1e-13
-        ctx.verdict('gauss_legendre_exact_degree', okq, cls='quad:ngauss%d' % ng, detail='mu=%r w=%r' % (mu, wq), vector=vec)
-        I, imu, w, _ = m.partial_model()
-        _, out, _, _ = m.model()
-        slack = 1 if a.maybe_saturated else 0
-        cls0 = '%s:%s:%s:ngauss%d' % ('iso' if iso else 'noniso', 'sat' if a.saturated else 'unsat', kind, ng)
-        tmin, tmax = min(a.temps), max(a.temps)
-        rI_lo, rI_hi, rF_lo, rF_hi = [], [], [], []
-        twoF = 2.0 * np.sum(I * (w / imu), axis=0)      # per unit pi: flux_total / pi, from the model's own I
-        for wi, wnv in enumerate(a.wn):
-            blo, bhi = fx.planck_b(wnv, tmin), fx.planck_b(wnv, tmax)
-            for ai in range(I.shape[0]):
-                rI_lo.append(float(I[ai][wi]) / blo)
-                rI_hi.append(float(I[ai][wi]) / bhi)
+        try:
+            # Gauss-Legendre facts of the quadrature actually used by this model
+            mu = [float(x) for x in m._mu_quads]
+            wq = [float(x) for x in m._wi_quads]
+            add(dict(ev='quad', mu=[int(round(x * 10000)) for x in mu], w=[int(round(x * 10000)) for x in wq], S=10000),
+                'quad:ngauss%d' % ng, 'mu=%r w=%r' % (mu, wq), vec)
+            # sharp, on the floats themselves: exactness for polynomials of degree <= 2n-1 on [0,1]
+            okq = all(0.0 < x < 1.0 for x in mu)
+            for k in range(2 * ng):
+                s = sum(Fraction(w_) * Fraction(x) ** k for x, w_ in zip(mu, wq))
+                okq = okq and abs(float(s) - 1.0 / (k + 1)) <= 1e-13
+            ctx.verdict('gauss_legendre_exact_degree', okq, cls='quad:ngauss%d' % ng, detail='mu=%r w=%r' % (mu, wq), vector=vec)
+            I, imu, w, _ = m.partial_model()
+            _, out, _, _ = m.model()
+            slack = 1 if a.maybe_saturated else 0
+            cls0 = '%s:%s:%s:ngauss%d' % ('iso' if iso else 'noniso', 'sat' if a.saturated else 'unsat', kind, ng)
+            tmin, tmax = min(a.temps), max(a.temps)
+            rI_lo, rI_hi, rF_lo, rF_hi = [], [], [], []
+            twoF = 2.0 * np.sum(I * (w / imu), axis=0)      # per unit pi: flux_total / pi, from the model's own I
+            for wi, wnv in enumerate(a.wn):
+                blo, bhi = fx.planck_b(wnv, tmin), fx.planck_b(wnv, tmax)
+                for ai in range(I.shape[0]):
+                    rI_lo.append(float(I[ai][wi]) / blo)
+                    rI_hi.append(float(I[ai][wi]) / bhi)
+                if kind == 'emission':
+                    bs = fx.planck_b(wnv, a.star_T)
+                    geo = (a.rp_m / a.rs_m) ** 2
+                    rF_lo.append(float(out[wi]) / (blo / bs * geo))
+                    rF_hi.append(float(out[wi]) / (bhi / bs * geo))
+                else:
+                    direct.append((float(out[wi]) / (math.pi * twoF[wi] * (a.rp_m / a.d_m) ** 2), cls0, vec))
+            # one event per model: extreme ratios (min of value/cold, max of value/hot)
+            add(dict(ev='bounds', lo=scaled(min(rI_lo)), hi=scaled(max(rI_hi)), S=S_TRACE, sat=slack, iso=0),
+                cls0 + ':intensity', 'I/B_cold >= %r, I/B_hot <= %r' % (min(rI_lo), max(rI_hi)), vec)
             if kind == 'emission':
-                bs = fx.planck_b(wnv, a.star_T)
-                geo = (a.rp_m / a.rs_m) ** 2
-                rF_lo.append(float(out[wi]) / (blo / bs * geo))
-                rF_hi.append(float(out[wi]) / (bhi / bs * geo))
-            else:
-                direct.append((float(out[wi]) / (math.pi * twoF[wi] * (a.rp_m / a.d_m) ** 2), cls0, vec))
-        # one event per model: extreme ratios (min of value/cold, max of value/hot)
-        add(dict(ev='bounds', lo=scaled(min(rI_lo)), hi=scaled(max(rI_hi)), S=S_TRACE, sat=slack, iso=0),
-            cls0 + ':intensity', 'I/B_cold >= %r, I/B_hot <= %r' % (min(rI_lo), max(rI_hi)), vec)
-        if kind == 'emission':
-            add(dict(ev='bounds', lo=scaled(min(rF_lo)), hi=scaled(max(rF_hi)), S=S_TRACE, sat=slack, iso=0),
-                cls0 + ':flux', 'F/ratio_cold >= %r, F/ratio_hot <= %r' % (min(rF_lo), max(rF_hi)), vec)
-        if iso:
-            add(dict(ev='bounds', lo=scaled(min(rI_lo)), hi=scaled(max(rI_lo)), S=S_TRACE, sat=slack, iso=1),
-                cls0 + ':intensity_identity', 'I/B in [%r, %r]' % (min(rI_lo), max(rI_lo)), vec)
-            # sharp (1e-12), on the floats
-            lo_ok = min(rI_lo) >= 1 - 1e-12 and max(rI_lo) <= 1 + (EXP_M10 if a.maybe_saturated else 0.0) + 1e-12
-            ctx.verdict('isothermal_identity', lo_ok, cls=cls0, detail='I/B in [%r, %r]' % (min(rI_lo), max(rI_lo)), vector=vec)
-            if kind == 'emission':
-                f_ok = min(rF_lo) >= 1 - 1e-12 and max(rF_lo) <= 1 + (EXP_M10 if a.maybe_saturated else 0.0) + 1e-12
-                ctx.verdict('isothermal_identity', f_ok, cls=cls0, detail='flux/(B(T)/B(T*)(Rp/Rs)^2) in [%r, %r]' % (min(rF_lo), max(rF_lo)), vector=vec)
-                add(dict(ev='bounds', lo=scaled(min(rF_lo)), hi=scaled(max(rF_lo)), S=S_TRACE, sat=slack, iso=1),
-                    cls0 + ':flux_identity', 'flux ratio in [%r, %r]' % (min(rF_lo), max(rF_lo)), vec)
+                add(dict(ev='bounds', lo=scaled(min(rF_lo)), hi=scaled(max(rF_hi)), S=S_TRACE, sat=slack, iso=0),
+                    cls0 + ':flux', 'F/ratio_cold >= %r, F/ratio_hot <= %r' % (min(rF_lo), max(rF_hi)), vec)
+            if iso:
+                add(dict(ev='bounds', lo=scaled(min(rI_lo)), hi=scaled(max(rI_lo)), S=S_TRACE, sat=slack, iso=1),
+                    cls0 + ':intensity_identity', 'I/B in [%r, %r]' % (min(rI_lo), max(rI_lo)), vec)
+                # sharp (1e-12), on the floats
+                lo_ok = min(rI_lo) >= 1 - 1e-12 and max(rI_lo) <= 1 + (EXP_M10 if a.maybe_saturated else 0.0) + 1e-12
+                ctx.verdict('isothermal_identity', lo_ok, cls=cls0, detail='I/B in [%r, %r]' % (min(rI_lo), max(rI_lo)), vector=vec)
+                if kind == 'emission':
+                    f_ok = min(rF_lo) >= 1 - 1e-12 and max(rF_lo) <= 1 + (EXP_M10 if a.maybe_saturated else 0.0) + 1e-12
+                    ctx.verdict('isothermal_identity', f_ok, cls=cls0, detail='flux/(B(T)/B(T*)(Rp/Rs)^2) in [%r, %r]' % (min(rF_lo), max(rF_lo)), vector=vec)
+                    add(dict(ev='bounds', lo=scaled(min(rF_lo)), hi=scaled(max(rF_lo)), S=S_TRACE, sat=slack, iso=1),
+                        cls0 + ':flux_identity', 'flux ratio in [%r, %r]' % (min(rF_lo), max(rF_lo)), vec)
+        except Exception as ex:
+            code_raised(ctx, ex, 'trace:model', vec)
     # direct-image law as one stateful trace: every ratio equals the first one
     if direct:
         for r, cls0, vec in direct:
